@@ -296,6 +296,9 @@ def main():
     confs.append((K('pv', 'pv', 'p', 'p', 'pv', 'K2g'), K('pv', 'pv', 'p', 'p', 'pv', 'K2g'), [], 0))
     confs.append((K('v', 'v', 'v', 'v', 'v', 'K3g'), K('', '', '', '', '', 'K3d'), ['set_vf A %s 1' % enc(x) for x in (b'f', b'b', b't', b'tl', b'g|y', b'g')], 0))
     confs.append((K('v', '', 'v', '', 'v', 'K4'), K('', '', '', '', '', 'K4d'), ['set_vf A %s 1' % enc(x) for x in (b'F', b'T', b'G|Y')], CFGF['NOCASE']))
+    # a parse callback may produce any double: infinity is stored as produced, validated, and the parse goes on
+    K7 = K('pv', 'p', 'p', 'p', 'v', 'K7')
+    confs.append((K7, K7, [], 0, S.alphabet_for(K7) + ['INF']))
     # a validation callback that is cleared again (NULL) is gone
     confs.append((K('p', 'p', 'p', 'p', '', 'K6'), K('pv', 'pv', 'pv', 'pv', 'v', 'K6d'), ['set_vf A %s 0' % enc(x) for x in (b'f', b'b', b't', b'tl', b'g|y')], 0))
     # deprecated / dropped options keep their callbacks: the value is converted and validated before it is dropped
